@@ -107,25 +107,37 @@ def handle (st : State) (cmd : String) (inp obs : List String) : State × String
       | none => (st, "BADLINE")
     | none => (st, "BADLINE")
   -- C12 weather: update_weather_from_distribution mr mc sr sc means.. => ok v.. | err
-  | "err.weatherdist", mr :: mc :: sr :: sc :: meanToks =>
-    match parseNat? mr, parseNat? mc, parseNat? sr, parseNat? sc, parseRats? meanToks with
-    | some mr, some mc, some sr, some sc, some means =>
+  | "err.weatherdist", mr :: mc :: sr :: sc :: rest =>
+    let meanToks := rest.takeWhile (· ≠ "|")
+    let sdToks := (rest.dropWhile (· ≠ "|")).drop 1
+    match parseNat? mr, parseNat? mc, parseNat? sr, parseNat? sc, parseRats? meanToks, sdToks.mapM dyadic? with
+    | some mr, some mc, some sr, some sc, some means, some sds =>
       let zeros := means.map fun _ => (0 : Rat)
-      let modelErr := updateWeatherFromDistribution mr mc sr sc means zeros zeros
+      -- the standard normal draws are unknown; where the deviation is 0 they do not matter
+      let sds := if sds.length = means.length then sds else zeros   -- shapes differ: rejected before any draw
+      let modelErr := updateWeatherFromDistribution mr mc sr sc means (weatherZs means sds zeros) zeros
       match obs with
       | "ok" :: vals =>
         match vals.mapM dyadic? with
         | some vs =>
-          if vs.any (fun v => decide (v < 0) || decide (v > 1)) then (st, s!"PROPFAIL C12 weather_range values={vals}")
-          else if vs.length ≠ means.length then (st, "PROPFAIL C12 weather_range wrong number of cells")
-          else (st, match modelErr with | .ok _ => "ok" | .error e => s!"PROPFAIL C12 mean_rejected expected={errTok e} observed=ok")
+          let range := if vs.any (fun v => decide (v < 0) || decide (v > 1)) then [s!"PROPFAIL C12 weather_range values={vals}"]
+            else if vs.length ≠ means.length then ["PROPFAIL C12 weather_range wrong number of cells"] else []
+          match modelErr with
+          | .error e =>
+            (st, " ;; ".intercalate (range ++ [s!"PROPFAIL C12 mean_rejected expected={errTok e} observed=ok",
+                  s!"PROPFAIL C20 documented_error err.weatherdist expected={errTok e} observed=ok"]))
+          | .ok out =>
+            -- correspondence (not a property): a cell with deviation 0 gets exactly its mean
+            let bad := (List.range means.length).filter fun k => sds[k]! == 0 && vs[k]! != out[k]!
+            if !range.isEmpty then (st, " ;; ".intercalate range)
+            else if bad.isEmpty then (st, "ok") else (st, s!"MISMATCH err.weatherdist degenerate cells={bad} model={out}")
         | none => (st, "BADLINE")
       | [e] =>
         (st, match modelErr with
           | .error k => if e = errTok k then "ok" else s!"PROPFAIL C20 documented_error err.weatherdist expected={errTok k} observed={e}"
           | .ok _ => s!"MISMATCH err.weatherdist model=ok observed={e}")
       | _ => (st, "BADLINE")
-    | _, _, _, _, _ => (st, "BADLINE")
+    | _, _, _, _, _, _ => (st, "BADLINE")
   | _, _ => (st, "BADLINE")
 
 end Pops.Driver.ErrEng
